@@ -67,6 +67,12 @@ pub fn generate(g: &mut Gen, thorough: bool) {
                 inv.push([d.x_0 + g.rng.uniform(-0.3, 0.3) * qs, d.y_0 + (d.centre.1.to_radians() + g.rng.uniform(-0.2, 0.2)) * qs, g.rng.uniform(0.0, 100.0), 2010.0]);
                 icl.push('e');
             }
+            // the false origin itself and its immediate surroundings (the inverse may have a shortcut there): transformed,
+            // counted, height and time untouched
+            for (dx, dy) in [(0.0, 0.0), (1e-11, 0.0), (0.0, -1e-9), (1e-3, 1e-3)] {
+                inv.push([d.x_0 + dx, d.y_0 + dy, 1234.5, 2020.25]);
+                icl.push(if name == "webmerc" || name == "merc" || name == "laea" || name == "somerc" || name == "lcc" { 'i' } else { 'e' });
+            }
             if name == "tmerc" || name == "utm" {
                 // around the strip limit: 2.623395162778 scaled radii from the central meridian
                 for f in [2.55, 2.60, 2.62, 2.6233, 2.6235, 2.63, 2.7, 3.5, -2.55, -2.62, -2.6233, -2.6235, -2.7] {
@@ -200,6 +206,29 @@ pub fn generate(g: &mut Gen, thorough: bool) {
         }
         for dir in ["F", "I"] {
             case(g, "plain", "deformation dt=1 grids=eur_nkg_nkgrf17vel.deformation", dir, "012", "3", &pts, &cl, "deformation-nonsquare-cells", false);
+        }
+        // the deformation operator inside and outside its grids (test.deformation: 54-58 N, 8-16 E), with and without
+        // the null grid: outside, a tuple is NaN and not counted, or passes unchanged and is counted
+        for def in ["deformation dt=1000 grids=test.deformation", "deformation dt=1000 grids=test.deformation,@null", "deformation t_epoch=1000 grids=@missing.deformation,test.deformation,@null"] {
+            let null = def.contains("@null");
+            let mut pts = vec![];
+            let mut cl = String::new();
+            for (lat, lon) in [(55.0, 12.0), (56.5, 9.25), (57.9, 15.9)] {
+                pts.push(cart(lat, lon));
+                cl.push('i');
+            }
+            for (lat, lon) in [(41.0, 2.0), (56.0, 30.0), (-33.0, 151.0), (70.0, 12.0)] {
+                pts.push(cart(lat, lon));
+                cl.push(if null { 'u' } else { 'o' });
+            }
+            for q in nan_variants(&mut g.rng, pts[0]) {
+                pts.push(q);
+                cl.push('e');
+            }
+            for dir in ["F", "I"] {
+                case(g, "plain", def, dir, "012", "3", &pts, &cl, "deformation-null-grid", false);
+                g.push(super::opg_line(&super::shipped_grids_of(def), def, "apply", dir, &data_of(&pts)), "model-deformation-null-grid", true);
+            }
         }
         let mut text = String::from("50 58 10 22 2 4\n");
         for row in 0..5 {
